@@ -107,6 +107,7 @@ type ggGen struct {
 	noToks bool // do not generate lexer.Token / []lexer.Token fields
 	noNeg  bool // do not generate ~ and lookahead groups (C13's grammar class)
 	lits   []string
+	deep   bool
 }
 
 // literal texts that need escaping when printed (C14's generated family)
@@ -189,6 +190,10 @@ func (g *ggGen) term(d int, inCap bool, p *ggProd) *rx {
 		case c < 92:
 			if g.noNeg {
 				continue
+			}
+			if g.deep && g.r.intn(3) == 0 {
+				// ~( ... ) over a group of terminals, with or without a modifier
+				return &rx{kind: kNeg, kids: []*rx{g.group(0, true, p)}}
 			}
 			t := g.term(0, true, p)
 			if t.kind != kLit && t.kind != kRef && t.kind != kTLit {
@@ -364,7 +369,15 @@ func (p *ggProd) chunks() []ggChunk {
 			emit("@@", e.field)
 		case kNeg:
 			emit("~", -1)
-			pr(e.kids[0], false)
+			if k := e.kids[0]; k.kind == kGrp && k.mode != mOnce {
+				// "~( x )+" is read as ( ~( x ) )+: a negated group with a modifier
+				// needs parentheses of its own
+				emit("(", -1)
+				pr(k, false)
+				emit(")", -1)
+			} else {
+				pr(e.kids[0], false)
+			}
 		case kLA:
 			if e.neg {
 				emit("(?!", -1)
@@ -455,7 +468,13 @@ func vhGeneratedProd(idx int, noToks, noNeg bool, lits []string) *ggProd {
 		r.next()
 	}
 	g := &ggGen{r: r, noToks: noToks, noNeg: noNeg, lits: lits}
-	root := g.prod(2)
+	depth := 2
+	if idx%12 == 11 {
+		// every twelfth grammar is one level deeper (groups with repetitions inside
+		// captures) and may negate a whole group
+		depth, g.deep = 3, true
+	}
+	root := g.prod(depth)
 	root.rtype()
 	return root
 }
